@@ -1,0 +1,16 @@
+//go:build verif
+
+package gojq
+
+// verifOptMask selects compiler rewrites to disable (bit k = rewrite k); it is
+// set only by the verification harnesses in /verif (translation validation of
+// the optimised against the unoptimised compilation, property C04).
+//
+//	1 expbegin removal for an empty if-condition   2 constant if-branches
+//	3 constant objects   4 constant arrays   5 argument inlining
+//	6 expbegin removal for the indexing argument   7 constant index keys
+//	8 constant paths in assignment   9 signed-number folding
+//	10 tail-call elimination   11 peephole pass
+var verifOptMask int
+
+func verifOptOff(k int) bool { return verifOptMask&(1<<k) != 0 }
